@@ -326,6 +326,15 @@ func (c *twoPhaseCommitter) commitFlushedMutations(bo *retry.Backoffer) error {
 	primaryMutation := NewPlainMutations(1)
 	primaryMutation.Push(c.pipelinedCommitInfo.primaryOp, c.primaryKey, nil, false, false, false, false)
 	if err = c.commitMutations(bo, &primaryMutation); err != nil {
+		// Like commitTxn: when the outcome of the primary commit request could not be learned, the result
+		// of the transaction is undetermined, it must not be reported as a plain failure.
+		if undeterminedErr := c.getUndeterminedErr(); undeterminedErr != nil {
+			logutil.Logger(bo.GetCtx()).Warn("[pipelined dml] commit result undetermined",
+				zap.Error(err),
+				zap.NamedError("rpcErr", undeterminedErr),
+				zap.Uint64("txnStartTS", c.startTS))
+			err = errors.WithStack(tikverr.ErrResultUndetermined)
+		}
 		return errors.Trace(err)
 	}
 	c.mu.Lock()
